@@ -173,6 +173,10 @@ def _prep_c11(name):
                     return dict(name=name, ok=False, why='the shipped container is itself inconsistent (declared size != inflated size)')
     except Exception as e:
         return dict(name=name, ok=False, why='container not understood by the harness: %s' % type(e).__name__)
+    if img.raw.eh['e_machine'] == 118:
+        # EM_DSPIC30F 'phantom byte' images: the library documents that it does not know where the vendor's odd-byte
+        # discarding fits into the chain of container transforms and that the vendor tool chain does not compress
+        return dict(name=name, ok=False, why='phantom-byte (XC16/dsPIC) image: container transforms are documented as outside the supported envelope')
     return dict(name=name, ok=True, debug=[s['name'] for s in dbg], relocs=img.has_debug_relocs(),
                 compressed_orig=any(s['sh_flags'] & elfedit.SHF_COMPRESSED or s['name'].startswith('.zdebug_') for s in dbg),
                 haslink='.gnu_debuglink' in names, sup=name in SUP_PAIRS)
